@@ -536,8 +536,7 @@ theorem partial_ack_keeps_positions (s : Snd) (seg : WSeg) (rest : List WSeg) (k
 
 /-- the statement of the trim in the source, regenerated on every run -/
 theorem trim_statements_pinned :
-    Gen.Shapes.tcp_trim_ack = ["ackLeft := acked", "for ackLeft > 0", "if datalen > ackLeft", "seg.data.TrimFront(int(ackLeft))",
-      "seg.sequenceNumber.UpdateForward(ackLeft)", "ackLeft -= datalen"] := by decide
+    Gen.Shapes.tcp_trim_ack = ["v6 := v5", "for v6 > 0", "if v8 > v6", "v1.data.TrimFront(int(v6))", "v1.sequenceNumber.UpdateForward(v6)", "v6 -= v8"] := by decide
 
 /-- non-vacuity: an out-of-order, overlapping delivery of the stream [1..6] starting at sequence number 2^32-2 -/
 example :
